@@ -175,7 +175,7 @@ def run(ck):
         n += 1
         if ck.mine(n):
             check_roundtrip(ck, rng, [], bits, iid, 'empty')
-    for i in range(600 if not thorough else 20000):
+    for i in range(600 if not thorough else 200000):
         n += 1
         if not ck.mine(n):
             continue
@@ -203,8 +203,27 @@ def run(ck):
             ck.count('tamper.messages')
             ck.seen('tamper.kinds', (tag, bits, iid))
             tamper(ck, rng, data, crypto, keys, tag, thorough)
+    if thorough:
+        # tamper random payload lists too (all 8 bits everywhere)
+        for j in range(160):
+            k += 1
+            if not ck.mine(k):
+                continue
+            m_ = gen.gen_message(rng)
+            pls = [p_ for p_ in m_['payloads'] if p_['type'] != 46][:4]
+            bits, iid = SUITES[j % 6]
+            crypto, keys = make_crypto(rng, bits, iid)
+            try:
+                msg, inner, objs = build_message(rng, pls, crypto)
+            except (r_msg.InvalidSyntax, r_msg.UnsupportedCriticalPayload):
+                continue
+            data = bytes(msg.to_bytes())
+            if len(data) > 700:
+                continue
+            ck.count('tamper.messages')
+            tamper(ck, rng, data, crypto, keys, 'random', thorough)
     # (3) wire monitor in real histories
-    for h in range(6 if not thorough else 60):
+    for h in range(6 if not thorough else 400):
         n += 1
         if not ck.mine(n):
             continue
